@@ -74,7 +74,8 @@ HitsUnbound(S, o) == HitsUnboundF(S, o, 10)
 NewAlias(tp, par) == [tp |-> tp, tgt |-> Nil, passed |-> FALSE, par |-> par]
 
 \* ---- frames ------------------------------------------------------------------------------------------
-Fr(f, a) == [f |-> f, a |-> a, st |-> "enter", i |-> 1, j |-> 1, cur |-> Nil, x |-> Nil, q |-> <<>>, r |-> <<>>, set |-> {}, sup |-> FALSE]
+Fr(f, a) == [f |-> f, a |-> a, st |-> "enter", i |-> 1, j |-> 1, cur |-> Nil, x |-> Nil, q |-> <<>>, r |-> <<>>, set |-> {}, sup |-> FALSE,
+             ext |-> FALSE]      \* ext: the `external` argument of expand_wildcards (TRUE: load unknown packages)
 FrSup(f, a) == [Fr(f, a) EXCEPT !.sup = TRUE]
 FrLK(parts) == [Fr("LK", Nil) EXCEPT !.q = parts]
 
@@ -122,7 +123,7 @@ StepRT(S, t) ==
          ELSE CallF([S EXCEPT !.al[a].passed = TRUE], [t EXCEPT !.st = "lk"], FrLK(S.al[a].tp))
     [] t.st = "lk" ->
          \*   except KeyError as error: raise AliasResolutionError(self) from error
-         IF S.exc = "KEY" THEN Throw(Clear(S), "ARE")
+         IF S.exc = "KEY" THEN Throw([Clear(S) EXCEPT !.erra = a], "ARE")        \* error.alias = self
          ELSE IF S.exc # "" THEN Throw(Clear(S), S.exc)
          ELSE LET r == S.ret IN
               \*   if resolved is self: raise CyclicAliasError([self.target_path])
